@@ -27,7 +27,14 @@ def oracle(spec: dict, res: dict, failing: bool):
                 yield KNOWN_LOOP_HANG, (f"{res['outcome']['detail']}: {name} got a FAILED termination on {bad_in} and still waits for the "
                                         f"iteration termination of {[(p, lc['checklist'][p]) for p in waiting]}")
                 return
-        yield "hang:executor-run-does-not-finish", f"{res['outcome']['detail']}; unterminated steps {res.get('unterminated_at_exit')}"
+        if res.get("self_awaiting_tasks"):
+            # dead-lock by inspection, not by the clock: close() ran inside a step task (`_handle_exception` after run() raised)
+            # and cancelled + awaited that very task
+            yield "hang:close-awaits-the-task-it-runs-in", (f"{res['outcome']['detail']}; unterminated steps {res.get('unterminated_at_exit')}; "
+                                                             f"pending {res.get('pending', [])[:4]}")
+            return
+        yield "hang:executor-run-does-not-finish", (f"{res['outcome']['detail']}; unterminated steps {res.get('unterminated_at_exit')}; "
+                                                    f"pending tasks {res.get('pending', [])[:6]}")
         return
     if kind == "harness-error":
         return
@@ -105,6 +112,17 @@ FAIL_CORPUS = [
         {"id": 2, "kind": "tf", "ins": [3], "outs": [4], "fn": "add", "k": 1},
         {"id": 3, "kind": "exec", "ins": [4], "outs": [5], "k": 1, "allcores": True},
         {"id": 4, "kind": "tf", "ins": [2, 5], "outs": [6], "fn": "lin", "k": 0}]},
+    # an exception ESCAPES a step's run() (ScatterStep on a non-list token) while another branch (scatter -> delayed jobs ->
+    # gather) is still running: `_handle_exception` calls close() INSIDE the raising step's task. In a workflow without
+    # output ports nobody else closes the executor (run() only awaits the step tasks): before 92ab986 close() cancelled and
+    # awaited the task it was running in (RecursionError inside asyncio, run() never returned). Second variant: with output
+    # ports (there the main task's `_wait_outputs` -> `_cancel` -> close() rescued the old code).
+    *[{"nports": 9, **no_out, "sources": [{"port": 0, "value": [3, 5]}, {"port": 1, "value": [1, 2, 3]}], "closed": [], "nodes": [
+        {"id": 0, "kind": "tf", "ins": [0], "outs": [2], "fn": "sum", "k": 0, "fail": {"mode": "escape"}},
+        {"id": 1, "kind": "scatter", "ins": [2], "outs": [3, 4]},
+        {"id": 2, "kind": "scatter", "ins": [1], "outs": [5, 6]},
+        {"id": 3, "kind": "exec", "ins": [5], "outs": [7], "k": 1, "delay": 0.1},
+        {"id": 4, "kind": "gather", "ins": [7, 6], "outs": [8], "depth": 1}]} for no_out in ({"no_outputs": True}, {})],
 ]
 
 
@@ -146,9 +164,9 @@ def _fail_node(spec: dict):
 class C04(Property):
     pid = "C04"
     title = "Every well-formed workflow terminates, and failures terminate every step"
-    lean_targets = ["SFV.Props.C04", "SFV.Props.C04Loop", "SFV.Props.C04Guards", "SFV.Props.C04Status", "SFV.Props.C04LoopNet"]
+    lean_targets = ["SFV.Props.C04", "SFV.Props.C04Loop", "SFV.Props.C04Guards", "SFV.Props.C04Status", "SFV.Props.C04LoopNet", "SFV.Props.C04Crash"]
     props_files = ["SFV/Props/C04.lean", "SFV/Props/C04Loop.lean", "SFV/Props/C04Guards.lean", "SFV/Props/C04Status.lean",
-                   "SFV/Props/C04LoopNet.lean"]
+                   "SFV/Props/C04LoopNet.lean", "SFV/Props/C04Crash.lean"]
     drivers = ["Drivers/Net.lean"]
     translators = [stepguards.generate]
     rule = ("random well-formed DAG workflows (sfv.rt.wfgen: 2..12 nodes from the real step classes — transformers, scatter/gather "
